@@ -234,6 +234,8 @@ type Impl struct {
 	TokType       func(id string) int
 	NewParser     func() Parser
 	Tables        func() *Tables
+	ScanKeep      func(src []byte) func() []Token          // see the adapter: token objects kept, rendered on demand
+	LexFile       func(path string) (string, error)         // NewLexerFile(path): every token with Pos.String()
 	TokenAPI      func(typ int, lit string) string // results of the token package's accessors on a fresh token
 	ErrorString   func(errObj any) string          // err.Error() of the raw error value
 	ErrorExpected func(errObj any) []string        // a copy of the ExpectedTokens field of the raw error value (nil if it is not a parser error)
